@@ -322,7 +322,7 @@ def impl(case) -> str:
                     firedset.add(i)
                     ev.append(f"C{i}=err:{f.type.__name__}")
                     if i in want_desc and f.type.__name__ not in ("ConnectionDone", "CancelledError"):
-                        got = getattr(f.value, "description", None) or str(f.value)
+                        got = f.value.description if hasattr(f.value, "description") else str(f.value)
                         if got != want_desc[i].decode("utf-8", "replace"):
                             descbad.append(f"C{i}:{got[:20]!r}")
                     again()
